@@ -3,7 +3,7 @@ use crate::value::merge_object::MergeSeq;
 use crate::value::{DynObject, ObjectRepr, Tuple, Value, ValueKind, ValueRepr};
 
 const MIN_I128_AS_POS_U128: u128 = 170141183460469231731687303715884105728;
-const MAX_REPEATED_STRING_LEN: usize = 100_000_000;
+pub(crate) const MAX_REPEATED_STRING_LEN: usize = 100_000_000;
 
 /// Iterator wrapper that provides exact size hints for iterators with known length.
 pub(crate) struct LenIterWrap<I: Send + Sync>(pub(crate) usize, pub(crate) I);
